@@ -33,3 +33,10 @@ claim(
     "Trusted: acnverif/oracles/phasor.py; guard band 1e-10*(1+limit) (cases inside are counted, not judged); the algorithm-side function is passed the same tolerances explicitly.",
     "DESIGN.md 3/C06",
 )
+claim(
+    "C17",
+    "Exhaustive enumeration of (tariff file x calendar type x day x instants around every breakpoint; every minute in the thorough tier) vs. an independent JSON parser; Hypothesis-generated price vectors and small simulations for interface alignment and cost formulas",
+    "Exploration, exhaustive over the stated calendar domain in the thorough tier: all 5 bundled files x 14 calendar types x every day x (quick) every breakpoint +-1 s/+-1 min and day ends, ~5*10^5 lookups, or (thorough) every minute, ~3.7*10^7 lookups; two years share one tariff object so history dependence shows. 600/40 000 generated price vectors (n<=600, five period lengths) and 150/8 000 generated simulations whose scheduler records get_prices/get_demand_charge for start None/0/k/t+1, with energy_cost and demand_charge recomputed from recorded rates.",
+    "Trusted: the independent parser in acnverif/props/c17.py, which reads the same bundled JSON (published utility prices are not cross-checked); naive datetimes at one-second resolution.",
+    "DESIGN.md 3/C17",
+)
